@@ -64,6 +64,13 @@ def well_formed_cases(rng, quick):
         # quick: two metas per status; thorough: every meta with every status
         for meta in (rng.sample(metas, 2) if quick else metas):
             cases.append((f"{st} {meta}\r\n".encode(), f"non2x", f"{st // 10}x", "n/a"))
+    # characters that some text functions treat as line boundaries although only CR LF ends a Gemini header:
+    # every one of them, in a prompt, a redirect target, an error text and a media-type parameter (always run)
+    for j, sep in enumerate(["\x0b", "\x0c", "\x1c", "\x1d", "\x1e", "\x85", "\u2028", "\u2029", "\t", "\x7f", "\u200b", "\ufeff"]):
+        st = (10, 31, 51, 44, 62, 11)[j % 6]
+        cases.append((f"{st} before{sep}after {sep}\r\n".encode(), "non2x-odd-separator", f"{st // 10}x", "n/a"))
+        if j % 2 == 0:
+            cases.append((f"20 text/gemini; note=a{sep}b\r\n".encode() + TEXT.encode(), "2x-odd-separator-in-parameter", "2x", "default"))
     for cs, text in CHARSETS:
         body = (text or TEXT).encode(cs)
         for st in (20, 21):
